@@ -364,6 +364,66 @@ def _cache_map(sync):
     return 'cached'
 
 
+def _started_or_cleaned(ctx, sync, graph, loop):
+    """C13.3: a container that is neither running nor in clean-up leaves the
+    resync either configured (its _configure call returned true) or handed
+    to clean-up - never with neither link (it would sit in apps/ for ever:
+    nothing starts it, nothing collects it)."""
+    body = K.loop_body_nodes(loop)
+    ctests = [n for n in body if n.kind == 'test' and
+              'cleanup_dir' in K.test_text(sync, n) and
+              'exists' in K.test_text(sync, n)]
+    ctx.require(ctests, 'in-cleanup test of the resync')
+    starts = [e.dst for t in ctests for e in t.succ
+              if e.kind == 'false' and e.dst not in ctests]
+    handover = [n for n in body if any(
+        K.callee_text(c) in ('fs.symlink_safe', 'os.symlink') and c.args and
+        'cleanup_dir' in K.rtxt(sync, c.args[0])
+        for c in C.node_calls(n))]
+    ctx.require(starts and handover, 'start-up branch and clean-up '
+                                     'hand-over of the resync')
+
+    def configured(edge):
+        if edge.kind == 'true' and edge.src in ctests:
+            return True         # found in clean-up after all: fine
+        return edge.kind == 'true' and edge.src.kind == 'test' and any(
+            K.is_meth(c, '_configure') for c in K.test_calls(sync, edge.src))
+    for start in starts:
+        path = K.find_path_cp(graph, start, [loop],
+                              cut_node=lambda n: n in handover,
+                              cut_edge=configured, follow_exc=False)
+        ctx.ob('C13.3', sync, start, path is None,
+               'a container with neither link ends the iteration started '
+               '(_configure returned true) or handed to clean-up',
+               path=K.describe(path) if path else None,
+               construct='started or cleaned')
+
+
+def _abort_flag_first(ctx):
+    """C13.3: the monitor writes the 'aborted' flag into the container's
+    data directory - which it finds through the running link - before it
+    moves that link to clean-up; afterwards the path no longer leads to the
+    container and a restarted manager would start the aborted container
+    again."""
+    mon = ctx.index.module('treadmill.monitor')
+    cls = mon.classes.get('MonitorContainerCleanup')
+    ctx.require(cls is not None, 'monitor.MonitorContainerCleanup')
+    func = cls.methods.get('execute')
+    ctx.require(func is not None, 'MonitorContainerCleanup.execute')
+    graph = ctx.cfg(func)
+    moves = [n for n, c in K.nodes_calling(
+        graph, lambda c: K.callee_text(c) in ('fs.replace', 'os.rename',
+                                              'os.replace'))]
+    flags = [n for n, c in K.nodes_calling(
+        graph, lambda c: K.callee_text(c).endswith('flag_aborted'))]
+    ctx.require(moves and flags, 'hand-over and abort flag in execute')
+    late = [f for f in flags for m in moves
+            if f in C.reach_after(m, edge_ok=None)]
+    ctx.ob('C13.3', func, flags[0], not late,
+           'the aborted flag is written before the running link is moved '
+           'to clean-up', construct='abort flag before hand-over')
+
+
 def _keep_running(ctx, acm, sync, graph, loop, cvar, ksync):
     nz = N.Normaliser()
     body = K.loop_body_nodes(loop)
@@ -664,6 +724,8 @@ def check(ctx):
     sync, term, graph, loop, cvar, ksync = _kinds(ctx, acm)
     _handover(ctx, acm, term)
     _terminal_files(ctx, sync, graph, loop)
+    _started_or_cleaned(ctx, sync, graph, loop)
+    _abort_flag_first(ctx)
     _keep_running(ctx, acm, sync, graph, loop, cvar, ksync)
     _gating(ctx, acm)
     _running_owner(ctx, acm)
